@@ -117,7 +117,7 @@ def rename(spec, rng, eps_choices=('ε', '_', '', 'e'), special_p=0.08, keep_sym
         while len(set(syms)) < len(syms):
             syms = rng.sample(pool, len(syms))
         sm = dict(zip(sorted(set(sig) | set(gam)), syms))
-        if spec['kind'] == 'pda' and gam and rng.random() < 0.15:
+        if spec['kind'] == 'pda' and gam and rng.random() < 0.3:
             # multi-character stack symbols, one a concatenation of others (legal through the constructor)
             base = rng.choice('ABXZ')
             forms = [base, base * 2, base * 3] if rng.random() < 0.5 else [base, 'Q', base + 'Q']
